@@ -21,7 +21,7 @@ def keys_of(it, uname, since=0):
 class World:
     """environment (optionally under TimeLimit) + stateful policy, as uninterpreted functions"""
 
-    def __init__(self, it, theta_env, theta_pol, limit=None, kind="discrete", masked=False, box=None, nact=3):
+    def __init__(self, it, theta_env, theta_pol, limit=None, kind="discrete", masked=False, box=None, nact=3, inner=()):
         self.it = it
         self.o = it.o
         self.U = UFCall(it)
@@ -29,7 +29,7 @@ class World:
         self.masked = masked
         self.box = box          # (low array, high array) of elements for Box actions
         self.nact = nact
-        self.env = Ref(it, ["TimeLimit"] if limit is not None else [], kind, theta_env, [limit] if limit is not None else [], masked=masked)
+        self.env = Ref(it, list(inner) + (["TimeLimit"] if limit is not None else []), kind, theta_env, [limit] if limit is not None else [], masked=masked)
         self.tp = arr0(theta_pol)
 
     def aaval(self):
